@@ -267,6 +267,9 @@ where
             if contested {
                 fail!("honest-fri-fails", "fri-degree-truncation-config", "prover panic {} :: {}", pn.msg, ctx());
             }
+            if pn.msg.contains("FailedToDrawFieldElement") || pn.msg.contains("failed to draw") {
+                fail!("honest-fri-fails", "coin-draw-exhaustion", "prover panic {} :: {}", pn.msg, ctx());
+            }
             fail!("fri-prover-panic", pn.site(), "{}:{}: {} :: {}", pn.file, pn.line, pn.msg, ctx());
         },
     };
@@ -288,6 +291,9 @@ where
             Ok(Err(e)) => {
                 if contested {
                     fail!("honest-fri-fails", "fri-degree-truncation-config", "{e} :: {}", ctx());
+                }
+                if e.contains("failed to draw") {
+                    fail!("honest-fri-fails", "coin-draw-exhaustion", "{e} :: {}", ctx());
                 }
                 fail!("fri-verifier-rejects-honest-proof", e.split(':').take(2).collect::<Vec<_>>().join(":").chars().filter(|c| !c.is_ascii_digit()).collect::<String>(), "{label}: {e} :: {}", ctx());
             },
